@@ -415,7 +415,14 @@ def add_decoders(reg, cid):
     v1 = '((((%s * %s) %% %d) * %d + 1) %% %d)' % (y, y, P1, SK.ED25519_D, P1)
     bad = ('len(encoded) != 32 or %s >= %d or (%s == 1 and %s == 1) or (%s != 1 and (spec.keys.gcd(%s, %d) != 1 or not spec.keys.is_square_mod(%s, %d) '
            'or (spec.keys.sqrt_mod(%s, %d) == 0 and %s == 1)))' % (y, P1, y, sg, y, v1, P1, x2, P1, x2, P1, sg))
+    def _ed_cands(p, n, topbit):
+        # boundary encodings tried on the real decoder ONLY when the solver leaves an obligation undecided (vf.pyunit.candidate_search):
+        # y around 0, 1, p and the largest encodable value, both sign bits, one wrong length
+        ys = [0, 1, 2, 3, 4, p - 2, p - 1, p, p + 1, p + 2, (1 << topbit) - 1]
+        out = [{'encoded': (y | (sg << topbit)).to_bytes(n, 'little')} for y in ys for sg in (0, 1) if (y | (sg << topbit)) < (1 << (8 * n))]
+        return out + [{'encoded': bytes(n - 1)}, {'encoded': bytes(n + 1)}]
     reg.add(Contract(K + '_import_ed25519_public_key', params={'encoded': 'bytes'}, raises={'ValueError': ('iff', bad)},
+                     options={'candidates': _ed_cands(P1, 32, 255)},
                      ensures={'y': '%s(result[1]) == %s' % (iv, y), 'range': '0 <= %s(result[0]) and %s(result[0]) < %d' % (iv, iv, P1),
                               'sign': '%s(result[0]) %% 2 == %s' % (iv, sg),
                               'x': '%s != 1 ==> (%s(result[0]) == spec.keys.sqrt_mod(%s, %d) or %s(result[0]) == %d - spec.keys.sqrt_mod(%s, %d))' % (y, iv, x2, P1, iv, P1, x2, P1),
@@ -427,6 +434,7 @@ def add_decoders(reg, cid):
     bad = ('len(encoded) != 57 or encoded[56] %% 128 != 0 or %s >= %d or (%s == 1 and %s == 1) or (%s != 1 and (spec.keys.gcd(%s, %d) != 1 or '
            'not spec.keys.is_square_mod(%s, %d) or (spec.keys.sqrt_mod(%s, %d) == 0 and %s == 1)))' % (y, P4, y, sg, y, v4, P4, x2, P4, x2, P4, sg))
     reg.add(Contract(K + '_import_ed448_public_key', params={'encoded': 'bytes'}, raises={'ValueError': ('iff', bad)},
+                     options={'candidates': _ed_cands(P4, 57, 455) + [{'encoded': (1 | (b << 448)).to_bytes(57, 'little')} for b in (1, 64, 127)]},
                      ensures={'y': '%s(result[1]) == %s' % (iv, y), 'range': '0 <= %s(result[0]) and %s(result[0]) < %d' % (iv, iv, P4),
                               'sign': '%s(result[0]) %% 2 == %s' % (iv, sg),
                               'x': '%s != 1 ==> (%s(result[0]) == spec.keys.sqrt_mod(%s, %d) or %s(result[0]) == %d - spec.keys.sqrt_mod(%s, %d))' % (y, iv, x2, P4, iv, P4, x2, P4),
@@ -553,6 +561,11 @@ def units(prop, tier):
             # SEC1 decoding is the same Python for the five NIST curves (the size and the constants differ): quick runs P-256 and the refusals
             out.append(pyvc_unit(prop, 'key.ecc.sec1.%s' % EC.LABEL[cid], lambda cid=cid: registry(cid, tier), [K + '_import_public_der'], weight=5,
                                  tiers=('quick', 'thorough') if cid in (3, 6, 7, 8, 9) else ('thorough',)))
+    if prop == 'C04':
+        # "verify rejects non-canonical encodings" (RFC 8032 5.1.7 / 5.2.7 step 1) rests on the point decoders: EdDSA.verify's contract
+        # assumes exactly these two contracts, so their proofs belong to C04 as well (seeded change C04-ed25519-decoder-y-equals-p)
+        for cid in (6, 7):
+            out.append(pyvc_unit(prop, 'key.ecc.decode.%s' % EC.LABEL[cid], lambda cid=cid: registry(cid, tier), DECODERS[cid]))
     if prop == 'C13':
         out.append(pyvc_unit(prop, 'key.ecc.import_der', cascade_registry, [K + '_import_der']))
     if prop == 'C18':
